@@ -96,6 +96,7 @@ func (r *ghRun) appendSets(lo, hi int) (pv interface{}) {
 func (r *ghRun) hammer(a map[string]interface{}) {
 	readers, ops, appends := vhInt(a, "readers", 4), vhInt(a, "ops", 100), vhInt(a, "appends", 8)
 	free := vhBool(a, "free")
+	mode := vhStr(a, "mode") // "lookup": GetGuardianSet only, "current": GetCurrentGuardianSet only, else both
 	seed := int64(vhInt(a, "seed", 1))
 	var wg sync.WaitGroup
 	type rec struct {
@@ -145,7 +146,7 @@ func (r *ghRun) hammer(a map[string]interface{}) {
 			p := fmt.Sprintf("h%d", g+1)
 			<-start
 			for k := 0; k < ops; k++ {
-				if rnd.Intn(4) == 0 {
+				if mode == "current" || (mode != "lookup" && rnd.Intn(4) == 0) {
 					if free {
 						bufs[g] = append(bufs[g], rec{"current", -1, r.current()})
 					} else {
